@@ -60,6 +60,9 @@ class Ctx:
         return os.path.join(self.scratch, *a)
 
     def cleanup(self):
+        if os.environ.get("VERIF_KEEP_SCRATCH"):     # debugging aid: leave traces and scenario files in place
+            print("scratch kept: " + self.scratch)
+            return
         shutil.rmtree(self.scratch, ignore_errors=True)
 
     def quick(self):
